@@ -54,6 +54,11 @@ def run(chk):
                 E = ev.Evaluator(F)
                 nparams = len(f["params"])
                 res, this_lv, args = E.run_symbolic(f, this_prefix="self", arg_prefixes=["p%d" % i for i in range(nparams)])
+                from ..models import narrowing_casts
+                nar = narrowing_casts(E.load(this_lv) if kind == "ctor" else E.rv(res), T)
+                if nar:
+                    chk.violated("R1", "%s | %s" % (name, sig), "the %s instance computes through %s (%s): not the formula to a few ulps of %s" % (T, nar[0][0], ev.show(nar[0][1])[:100], T), loc)
+                    continue
                 conv = nf.Conv(positive=True)
                 E0 = ev.Evaluator(F)
                 ins = []
